@@ -33,6 +33,8 @@ def items(tier):
     # an automatic task that belongs to a placed component
     for sp in F.double_link_specs():
         out.append((sp, {"rule": "TSLACK", "max_time": F.seq_bound(sp) + 8}))
+    for sp in F.second_workflow_specs() + F.five_task_join_specs()[::4]:
+        out.append((sp, {"rule": "TSLACK", "max_time": F.seq_bound(sp) + 8}))
     for sp in F.auto_component_specs() + F.auto_in_workplace_specs() + F.same_name_task_specs():
         for aa in (False, True):
             out.append((sp, {"rule": "TSLACK", "auto_abs": aa, "max_time": F.seq_bound(sp) + 10}))
